@@ -13,13 +13,13 @@ for n in sorted(os.listdir(root)):
         continue
     meta = json.load(open(os.path.join(d, "meta.json")))
     prop = meta["property"]
-    a = subprocess.run("git -C /repo apply --3way %s/patch.diff 2>&1 || (git -C /repo checkout -- . ; patch -d /repo -p1 --no-backup-if-mismatch -s -i %s/patch.diff)" % (d, d), shell=True, capture_output=True, text=True)
+    a = subprocess.run("git -C /repo apply %s/patch.diff 2>&1 || (git -C /repo reset -q --hard HEAD ; patch -d /repo -p1 --no-backup-if-mismatch -s -i %s/patch.diff)" % (d, d), shell=True, capture_output=True, text=True)
     if a.returncode != 0:
-        subprocess.run("git -C /repo checkout -- . && git -C /repo clean -fdq src", shell=True)
+        subprocess.run("git -C /repo reset -q --hard HEAD && git -C /repo clean -fdq src", shell=True)
         print(n, "NOAPPLY")
         continue
     p = subprocess.run("./check %s" % prop, cwd=os.path.join(root, ".."), shell=True, capture_output=True, text=True)
-    subprocess.run("git -C /repo reset -q && git -C /repo checkout -- . && git -C /repo clean -fdq src", shell=True, check=True)
+    subprocess.run("git -C /repo reset -q --hard HEAD && git -C /repo clean -fdq src", shell=True, check=True)
     keys = [l.strip()[len("rule-key: "):] for l in p.stdout.splitlines() if l.strip().startswith("rule-key:")]
     meta["check_result"] = {"cmd": "./check %s (patch applied to /repo, reverted afterwards)" % prop, "exit": p.returncode, "detected": p.returncode == 1 and bool(keys), "violation_keys": keys[:8]}
     json.dump(meta, open(os.path.join(d, "meta.json"), "w"), indent=1)
